@@ -451,6 +451,24 @@ func genKX(o hx.Opts, emit func(string)) {
 			}
 			rec(nil)
 		}
+		// ASN.1 length forms after the SEQUENCE tag: short, 0x81, 0x82, 0x83 …, bodies just long
+		// enough (or one byte too short) for each
+		for n := 1; n <= 7; n++ {
+			for _, lenByte := range []byte{0x00, 0x05, 0x7f, 0x80, 0x81, 0x82, 0x83, 0x84, 0xff} {
+				for _, fill := range []byte{0x00, 0x01, 0xa6, 0xff} {
+					b := make([]byte, 2+n)
+					b[1] = byte(n)
+					b[2] = 0x30
+					if n > 1 {
+						b[3] = lenByte
+					}
+					for j := 4; j < len(b); j++ {
+						b[j] = fill
+					}
+					emit("fn=ecc_pckx stack=" + st + " srv=sm2 body=" + hx.Hex(b))
+				}
+			}
+		}
 		for _, l := range []int{3, 4, 5, 6} { // 2-byte length + body of l-2 bytes, every first/third byte class
 			for _, b0 := range []byte{0x30, 0x00} {
 				for _, b2 := range []byte{0, 1, 2, 3, 0x7f, 0xff} {
